@@ -14,7 +14,7 @@ CONF = dict(
           'bytes; (ii) the real listeners on loopback in the child (StartIPServer, StartSCIONServer incl. end-host forwarder and SCMP responder with USE_MOCK_KEYS, '
           'StartCSPTPServerIP, StartNTSKEServerIP over TLS, StartNTSKEServerSCION over QUIC) fed histories of crafted datagrams / record streams, each followed on the same '
           'socket by a well-formed sentinel request that must be answered (IP: a plain NTP sentinel after every datagram and an NTS sentinel of a fresh association after '
-          'every history; CSPTP: the listener\'s "received request" log record; NTS-KE: a complete key exchange); (iii) the real clients (MeasureClockOffsetIP without and '
+          'every history; CSPTP: the listener\'s "received request" log record; NTS-KE: a complete key exchange, also while 1..16 connections that sent nothing, a partial or a whole ClientHello, or garbage are still open); (iii) the real clients (MeasureClockOffsetIP without and '
           'with NTS incl. a scripted TLS NTS-KE server handing out cookies of 0..65535 bytes, MeasureClockOffsetSCION with and without packet authentication, '
           'CSPTPClientIP.MeasureClockOffset) against scripted peers that answer with crafted datagrams, followed by an honest exchange that must succeed. A case is '
           'non-trivial when its input passes the first length check of its decoder (all listener/client cases are); distinct = distinct (kind, input)'),
